@@ -63,8 +63,9 @@ def build(repo):
     TYPE = "compiler/src/ast/type.rs"
     fc = src.fn(TYPE, "is_callable_allow_class", "impl TypeLayout")
     bc = translate(fc["body"], [
-        Rule("R1", "Self :: Function ( f ) => Some ( Cow :: Borrowed ( f ) )", "TypeLayout :: Function ( f ) => Some ( clone_ft ( f ) )", why="Cow::Borrowed(&FunctionType): that function type"),
-        Rule("R1", "Self :: Class ( class_type ) if allow_class => Some ( Cow :: Owned ( class_type . constructor ( ) ) )", "TypeLayout :: Class ( class_type ) if allow_class => Some ( class_type . constructor ( ) )", why="Cow::Owned: the constructor's type"),
+        Rule("R1", "Cow :: Borrowed ( f )", "clone_ft ( f )", why="Cow::Borrowed(&FunctionType): that function type"),
+        Rule("R1", "Cow :: Owned ( $$e )", "$$e", why="Cow::Owned: the value"),
+        Rule("R1", "Self :: $v", "TypeLayout :: $v", why="Self -> type name"),
     ], log, "TypeLayout::is_callable_allow_class")
     check_closed(bc, "is_callable_allow_class")
     gen = header(log, f"{FILE}: Parser::dot_chain_option, arm dot_function_call (what may be called); {TYPE}: TypeLayout::is_callable_allow_class") + SPEC + f"""
